@@ -115,7 +115,7 @@ async def raw(rig):
 
 class Ack(Sub):
     name = "ack"
-    examples = {"quick": 1200, "thorough": 40000}
+    examples = {"quick": 1200, "thorough": 9600}
     shards = {"quick": 12, "thorough": 16}
     rule = RULE
 
